@@ -1897,6 +1897,25 @@ def degenerate_probes(chk, rng):
                     if any(np.any(np.asarray(c) != 0) for c in cols):
                         chk.finding(ENTRY["plsr"], inp, "fit raised in initialize_cp of component 0 but left non-zero factor columns", "C19_object_state")
             chk.count(key=("degenerate_probe", name, ncomp), nontrivial=True)
+    # size-0 data (outside the model; recorded only): zero samples / an empty per-sample mode through the three fits
+    from tensorly.regression.cp_regression import CPRegressor
+    from tensorly.regression.tucker_regression import TuckerRegressor
+    for shp in ((0, 2, 3), (4, 0, 3)):
+        Xe = np.zeros(shp); ye = np.zeros((shp[0],)); Ye = np.zeros((shp[0], 2))
+        for nm, mkf in (("CPRegressor", lambda: CPRegressor(weight_rank=2, n_iter_max=2, random_state=0, verbose=0).fit(Xe.copy(), ye.copy())),
+                        ("TuckerRegressor", lambda: TuckerRegressor(weight_ranks=[1, 1], n_iter_max=2, random_state=0, verbose=0).fit(Xe.copy(), ye.copy())),
+                        ("CP_PLSR", lambda: CP_PLSR(n_components=1, n_iter_max=2).fit(Xe.copy(), Ye.copy()))):
+            try:
+                out = call(mkf)
+            except Skip:
+                continue
+            if out[0] != "ok":
+                res[f"size-0 {shp} / {nm}"] = "raises: " + str(out[1])[:60]
+            elif nm == "CP_PLSR":
+                fin = all(np.all(np.isfinite(np.asarray(f))) for f in list(out[1].X_factors) + list(out[1].Y_factors))
+                res[f"size-0 {shp} / {nm}"] = "fit returned, " + ("finite factors" if fin else "NON-FINITE factors (no error raised; reported)")
+            else:
+                res[f"size-0 {shp} / {nm}"] = "fit returned"
     chk.cov["degenerate_probe"] = res
     # score with a vector target
     X = dyadic(rng, (6, 2, 3), denom=8); y = X.reshape(6, -1) @ dyadic(rng, (6,), denom=4) + 0.25 * dyadic(rng, (6,), denom=8)
